@@ -349,6 +349,29 @@ Proof.
 Qed.
 Print Assumptions C10_analog_threshold.
 
+(* Totality in the one-word domain: read_sync fails in exactly one situation —
+   floor on, analog channels present, empty selection (F-C10-c); in every other
+   case C10_sync_layout gives its value. *)
+Theorem C10_read_sync_fails_exactly_when :
+  forall typ ntr c0 c1 c2 c3 start stop one thr gain use_floor raw,
+  nsync_of typ c0 c1 c2 c3 = 1 -> 1 <= ntr ->
+  (forall r, In r raw -> Z.of_nat (length r) = ntr) ->
+  (forall i, In i (analog_indices typ c0 c1 c2 c3) -> 0 <= i < ntr) ->
+  (read_sync typ ntr c0 c1 c2 c3 start stop one thr gain use_floor raw = None <->
+   use_floor = true /\ slice_rows start stop raw = [] /\ analog_indices typ c0 c1 c2 c3 <> []).
+Proof. exact read_sync_none_iff. Qed.
+Print Assumptions C10_read_sync_fails_exactly_when.
+
+(* The floor is a function of the multiset of the column's samples (their
+   order in time does not matter), and a constant offset added to the channel
+   moves the floor by exactly that offset (times 10, the model's scale): the
+   DC-offset removal read_sync's docstring promises is exact. *)
+Theorem C10_floor_multiset_and_offset :
+  (forall l l', Permutation.Permutation l l' -> pct10x l = pct10x l') /\
+  (forall d col, col <> [] -> pct10x (map (fun v => v + d) col) = pct10x col + 10 * d).
+Proof. split; [exact pct10x_perm_invariant|exact pct10x_shift]. Qed.
+Print Assumptions C10_floor_multiset_and_offset.
+
 (* Inside the property's domain (a valid, empty sample selection; one sync
    word): with analog channels and the floor on, read_sync raises (IndexError
    from np.percentile of an empty column) instead of returning zero rows;
@@ -426,3 +449,74 @@ Example C10_example_through_reader :
     fronts1 1 (column 0 rows) = ([1; 3], [1; -1]) /\ fronts1 1 (column 15 rows) = ([2], [-1]) /\
     column 16 rows = [0; 1; 1; 0].
 Proof. vm_compute. split; [reflexivity|]. eexists. repeat split. Qed.
+
+(* ---- the hypotheses of the theorems above are satisfiable --------------- *)
+
+Example ex_binary_train : binary [0; 0; 1; 1; 0; 1].
+Proof. intros b H. cbn in H. intuition lia. Qed.
+
+(* C10_fronts_ttl, C10_unsigned_container_indices: a binary train with a rise, a fall, a rise *)
+Example C10_example_hyp_fronts_ttl :
+  binary [0; 0; 1; 1; 0; 1] /\
+  fst (fronts1 1 [0; 0; 1; 1; 0; 1]) = [2; 4; 5] /\
+  fst (fronts1_c 1 1 [0; 0; 1; 1; 0; 1]) = [2; 4; 5] /\ rises1_c 2 1 [0; 0; 1; 1; 0; 1] = [2; 4; 5].
+Proof. split; [exact ex_binary_train|vm_compute; repeat split]. Qed.
+
+(* C10_fronts_2d_columns, C10_rises_falls_2d: a rectangular 3 x 3 input *)
+Example C10_example_hyp_rect :
+  Forall (fun row : list Z => length row = 3%nat) [[0; 0; 1]; [1; 0; 1]; [0; 0; 0]] /\
+  rises2 0 1 false [[0; 0; 1]; [1; 0; 1]; [0; 0; 0]] = [(1, 0)] /\
+  falls2 0 (-1) false [[0; 0; 1]; [1; 0; 1]; [0; 0; 0]] = [(2, 0); (2, 2)] /\
+  rises1 1 false (column 0 [[0; 0; 1]; [1; 0; 1]; [0; 0; 0]]) = [1].
+Proof. split; [repeat constructor|vm_compute; repeat split]. Qed.
+
+(* C10_decode_encode: 16 binary levels *)
+Example C10_example_hyp_levels :
+  let lv := [1; 0; 1; 1; 0; 0; 0; 1; 0; 0; 0; 0; 1; 0; 0; 1] in
+  length lv = 16%nat /\ binary lv /\ encode_word lv = -28531 /\ split_word (-28531) = lv.
+Proof.
+  cbv zeta. split; [reflexivity|]. split; [intros b H; cbn in H; intuition lia|]. vm_compute. split; reflexivity.
+Qed.
+
+(* C10_ttl_end_to_end / _polarity_alternates: lines, strictly increasing events inside [1, ns) *)
+Example C10_example_hyp_ttl :
+  let lines := [(0, [1; 3])] ++ repeat (0, []) 14 ++ [(1, [4])] in
+  length lines = 16%nat /\ nth 0 lines (0, []) = (0, [1; 3]) /\ nth 15 lines (0, []) = (1, [4]) /\
+  StronglySorted Z.lt [1; 3] /\ (forall e, In e [1; 3] -> 1 <= e < Z.of_nat 6) /\
+  StronglySorted Z.lt [4] /\ (forall e, In e [4] -> 1 <= e < Z.of_nat 6).
+Proof.
+  cbv zeta. split; [reflexivity|]. split; [reflexivity|]. split; [reflexivity|].
+  split; [repeat (constructor; try lia)|]. split; [intros e H; cbn in H; intuition lia|].
+  split; [repeat (constructor; try lia)|intros e H; cbn in H; intuition lia].
+Qed.
+
+(* C10_sync_layout, _decomposition, _analog_line_alone, _ttl_through_reader,
+   _read_sync_fails_exactly_when: a 4-sample, 3-channel nidq recording
+   (snsMnMaXaDw = 1,0,1,1: channel 1 analog sync, channel 2 the digital word) *)
+Example ex_raw : list (list Z) := [[9; 500; -32768]; [9; 20000; -32767]; [9; 20000; 1]; [9; 500; 0]].
+
+Example ex_raw_hyps :
+  nsync_of 1 1 0 1 1 = 1 /\ 1 <= 3 /\
+  (forall r, In r ex_raw -> Z.of_nat (length r) = 3) /\
+  (forall i, In i (analog_indices 1 1 0 1 1) -> 0 <= i < 3) /\
+  (true = false \/ slice_rows 0 4 ex_raw <> [] \/ analog_indices 1 1 0 1 1 = []).
+Proof.
+  split; [reflexivity|]. split; [lia|]. split.
+  - intros r H. cbn in H. intuition (subst; reflexivity).
+  - split; [intros i H; vm_compute in H; destruct H as [<-|[]]; lia|]. right. left. vm_compute. discriminate.
+Qed.
+
+(* ... and the theorem applied to it: the analog line of sample 1 is the
+   thresholded channel 1 with the floor of channel 1 (5000 = 10 * 500) *)
+Example C10_example_hyp_reader :
+  exists rows, read_sync 1 3 1 0 1 1 0 4 1024 1200 1 true ex_raw = Some rows /\
+    nth (16 + 0) (nth 1 rows []) 0 = digitise (10 * 1024) (10 * 1200) 5000 (20000 * 1 * 10) /\
+    nth 16 (nth 1 rows []) 0 = 1 /\ nth 16 (nth 3 rows []) 0 = 0.
+Proof.
+  destruct ex_raw_hyps as (H1 & H2 & H3 & H4 & H5).
+  pose proof (C10_sync_layout 1 3 1 0 1 1 0 4 1024 1200 1 true ex_raw H1 H2 H3 H4 H5) as [HL _].
+  eexists. split; [exact HL|].
+  split; [|vm_compute; split; reflexivity].
+  pose proof (C10_analog_line_alone 1 3 1 0 1 1 0 4 1024 1200 1 true ex_raw _ 0%nat 1%nat H1 H2 H3 H4 HL) as HA.
+  cbv zeta in HA. rewrite HA by (vm_compute; lia). vm_compute. reflexivity.
+Qed.
